@@ -1,5 +1,6 @@
 """C05parser (sub-check of C05) configuration for ./check"""
 CONF = {
+    'coq_sample': 15,   # cases re-evaluated inside Coq by vm_compute against the extracted runner's output
     'interesting': ['stop-at-unsupported', 'stop-at-error', 'container-map', 'container-sparse', 'container-array',
                     'container-custom', 'truncated', 'ignore-unsupported', 'reused-objects'],
     'rule': 'Two case families. (1) scripted: a family of synthetic decoding layers (table per object: CanDecode types, '
